@@ -2,11 +2,23 @@
 
 PRELUDE = """    #[diplomat::opaque]
     pub struct Opq(u8);
-    pub struct Strct { pub a: u8 }
+    pub struct Strct {
+        #[diplomat::rust_link(foo::Strct::a, StructField)]
+        pub a: u8,
+    }
     pub struct Zst {}
     #[diplomat::out]
-    pub struct OutS { pub a: u8 }
-    pub enum En { A, B }
+    pub struct OutS {
+        /// the macro has to take field-level diplomat attributes off every kind of struct before rustc sees them
+        #[diplomat::rust_link(foo::OutS::a, StructField)]
+        #[diplomat::demo(input(label = "A"))]
+        pub a: u8,
+    }
+    pub enum En {
+        #[diplomat::rust_link(foo::En::A, EnumVariant)]
+        A,
+        B,
+    }
     pub trait Tr { fn cb(&self, x: u8) -> u8; }
     pub trait Tr2 { fn first(&self, x: u32); fn bytes(&self, s: &[u8]) -> u8; fn both(&self, s: Strct, e: En) -> En; fn last(&self); }
 """
